@@ -61,8 +61,10 @@ theorem cubic_mtu_floored : cubicMtuFloored = true := by decide
 /-- exactly the three assignments modelled in `Recovery.Bbr` (plus the constructor) -/
 theorem bbr_cwnd_write_sites_eq : bbrCwndWriteSites = 3 := by decide
 theorem bbr_set_cwnd_clamped : bbrSetCwndClamped = true := by decide
-/-- `cwnd += newly_acked as u32` is an unchecked addition (see `C10.bbr_set_cwnd_overflow_witness`) -/
-theorem bbr_growth_unchecked : bbrGrowthUnchecked = true := by decide
+/-- the variant of the growing write in `set_cwnd` the model is pinned to is the one in the source:
+    `cwnd += newly_acked as u32` (false, see `C10.bbr_set_cwnd_overflow_counterexample`) or
+    `cwnd = cwnd.saturating_add(newly_acked as u32)` (true, `C10.bbr_no_overflow`) -/
+theorem bbr_growth_variant_eq : bbrGrowthSaturating = Bbr.saturatingGrowth := by decide
 theorem bbr_bound_floored : bbrBoundFloored = true := by decide
 theorem bbr_restore_is_max : bbrRestoreIsMax = true := by decide
 theorem bbr_save_is_max : bbrSaveIsMax = true := by decide
